@@ -28,7 +28,8 @@ mod c17 {
             }
             if self.typeck_fail {
                 // a genuine type-check error of a nested element, raised after part of the cell was written
-                5i32.serialize(&ColumnType::Native(NativeType::Blob), b.make_sub_writer())?;
+                let blob = std::mem::ManuallyDrop::new(ColumnType::Native(NativeType::Blob));
+                5i32.serialize(&blob, b.make_sub_writer())?;
             }
             if self.fail {
                 return Err(SerializationError::new(Boom));
@@ -67,7 +68,8 @@ mod c17 {
     #[kani::stub(std::rt::thread_cleanup, noop)]
     #[kani::stub(alloc::fmt::format, empty_string)]
     fn c17_twin_add_value() {
-        let typ = ColumnType::Native(NativeType::Blob);
+        let typ = std::mem::ManuallyDrop::new(ColumnType::Native(NativeType::Blob));
+        let typ: &ColumnType = &typ;
         let mut sv = SerializedValues::new();
         // prefix: 0..=2 arbitrary earlier values
         let pre: usize = kani::any();
@@ -76,7 +78,7 @@ mod c17 {
         while i < 2 {
             if i < pre {
                 let s = Sym { garbage: kani::any(), n: 1, nested: kani::any(), fail: false, typeck_fail: false };
-                sv.add_value(&s, &typ).unwrap();
+                assert!(std::mem::ManuallyDrop::new(sv.add_value(&s, typ)).is_ok());
             }
             i += 1;
         }
@@ -84,7 +86,7 @@ mod c17 {
         let count_before = sv.element_count();
         assert!(count_cells(&before) == Some(count_before), "count == number of encoded cells (before)");
         let v = any_sym();
-        let r = sv.add_value(&v, &typ);
+        let r = std::mem::ManuallyDrop::new(sv.add_value(&v, typ));
         if r.is_err() {
             assert!(sv.get_contents() == &before[..], "failed bind: bytes unchanged");
             assert!(sv.element_count() == count_before, "failed bind: count unchanged");
